@@ -43,9 +43,9 @@ type LocV struct {
 	Kind  string // "field", "elem", "cell", "global"
 	Obj   *Term  // field: object ref; elem: array ref
 	ST    *types.Struct
-	Path  []int  // field index path (field kind)
-	Idx   *Term  // elem: absolute index (BV64)
-	Cell  string // cell: state key
+	Path  []int      // field index path (field kind)
+	Idx   *Term      // elem: absolute index (BV64)
+	Cell  string     // cell: state key
 	Ty    types.Type // pointer type
 	Outer string     // heap component prefix for nested fields
 }
@@ -75,18 +75,18 @@ const (
 
 // opaqueStructs are named struct types modelled as a single scalar or as nothing.
 var opaqueStructs = map[string]*Sort{
-	"time.Time":                       BV(64), // nanoseconds
-	"github.com/hslam/funcs.Value":    IntS,
-	"reflect.Value":                   IntS,
-	"sync.Mutex":                      nil,
-	"sync.RWMutex":                    nil,
-	"sync.Cond":                       nil,
-	"sync.Once":                       nil,
-	"sync.WaitGroup":                  nil,
-	"sync.Pool":                       nil,
-	"sync.Map":                        nil,
-	"sync/atomic.Value":               nil,
-	"sync.noCopy":                     nil,
+	"time.Time":                    BV(64), // nanoseconds
+	"github.com/hslam/funcs.Value": IntS,
+	"reflect.Value":                IntS,
+	"sync.Mutex":                   nil,
+	"sync.RWMutex":                 nil,
+	"sync.Cond":                    nil,
+	"sync.Once":                    nil,
+	"sync.WaitGroup":               nil,
+	"sync.Pool":                    nil,
+	"sync.Map":                     nil,
+	"sync/atomic.Value":            nil,
+	"sync.noCopy":                  nil,
 }
 
 func typeKey(t types.Type) string {
@@ -175,9 +175,9 @@ func heapKey(owner types.Type, path string) string {
 	return typeName(owner) + "." + path
 }
 
-func (v Scalar) String() string  { return v.T.String() }
-func (v SliceV) String() string  { return fmt.Sprintf("slice(%s,%s,%s)", v.Arr, v.Off, v.Len) }
-func (v IfaceV) String() string  { return fmt.Sprintf("iface(%s,%s)", v.Tag, v.Val) }
+func (v Scalar) String() string { return v.T.String() }
+func (v SliceV) String() string { return fmt.Sprintf("slice(%s,%s,%s)", v.Arr, v.Off, v.Len) }
+func (v IfaceV) String() string { return fmt.Sprintf("iface(%s,%s)", v.Tag, v.Val) }
 func (v LocV) String() string {
 	return fmt.Sprintf("loc(%s %v %v %v %s)", v.Kind, v.Obj, v.Path, v.Idx, v.Cell)
 }
